@@ -340,3 +340,17 @@ func diffBits2(a, b [][]float64) (string, bool) {
 
 func nan() float64       { return math.NaN() }
 func inf(s int) float64  { return math.Inf(s) }
+
+// RefillInputs overwrites the live input array of p IN PLACE with new values of the same shape (a caller that keeps one
+// forcing buffer and refills it for the next station / period) and gives p fresh zero-initialised outputs.
+func (p *Prepared) RefillInputs(in [][][]float64) {
+	for i := range in {
+		for j := range in[i] {
+			for k, v := range in[i][j] {
+				p.Inputs.Set3(i, j, k, v)
+			}
+		}
+	}
+	sh := p.Outputs.Shape()
+	p.Outputs = data.NewArray3DFloat64(sh[0], sh[1], sh[2])
+}
